@@ -266,6 +266,7 @@ func judgeLockstep(prop string) func(sc *Scenario, rr *RunResult, env *core.Env)
 						}
 					}
 				}
+				m.NowHi = op.ReturnAt
 				ok, why := m.Apply(0, argv(op.Args), op.InvokeAt, op.Reply)
 				if len(op.Args) > 1 {
 					for _, k := range op.Args[1:] {
